@@ -375,10 +375,15 @@ def numerics(ctx):
                 ctx.extra.setdefault("rates", {})["%s:%d" % (hname, order)] = [round(r, 2) for r in rates]
                 ctx.extra.setdefault("errors", {})["%s:%d" % (hname, order)] = errs
                 ctx.case((hname, order, "order-fit"), nontrivial=True, kind="order-fit", sample={"H": hname, "order": order, "rates": rates})
+                if rates and max(rates) < 2 - 0.3:
+                    ctx.violation("order-below-2:%d" % order, "order-%d scheme converges at rate %.2f (< 2) at fixed omega" % (order, max(rates)),
+                                  {"hamiltonian": {str(k): v for k, v in hd.items()}, "order": order, "N": Ns, "errors": errs, "rates": rates, "omega": om})
+                    return
                 if rates and max(rates) < order - 0.7:
                     ctx.violation("order:%d" % order, "order-%d scheme converges at rate %.2f at fixed omega" % (order, max(rates)),
                                   {"hamiltonian": {str(k): v for k, v in hd.items()}, "order": order, "N": Ns, "errors": errs, "rates": rates, "omega": om, "T": Tend})
-                    return
+                    if any(v["key"] == "order:%d" % order for v in ctx.violations):
+                        return
         # --- the stepping loops: retracing a non-uniform grid restores the state; the event-enabled loop takes the same steps ---
         zz = np.array([0.2, 0.1, -0.15, 0.05, -0.1, 0.12])
         tv = np.array([0.0, 0.1, 0.15, 0.32, 0.15, 0.1, 0.0])
